@@ -723,7 +723,81 @@ func (fr *frame) exec(entry *state) {
 		}
 		fr.vc.guard = fr.cond[b]
 		fr.block(b, st)
+		for _, s := range b.Succs {
+			if li := fr.loops[s]; li != nil && s.Dominates(b) && li.body[b] {
+				fr.backEdge(li, b, s)
+			}
+		}
 	}
+}
+
+// backEdge: the invariant is preserved and the variant decreases along the edge b -> h.
+func (fr *frame) backEdge(li *loopInfo, b, h *ssa.BasicBlock) {
+	vc := fr.vc
+	st := fr.out[b]
+	ec := fr.edgeCond(b, h)
+	phiVals := map[*ssa.Phi]string{}
+	for _, ins := range h.Instrs {
+		phi, ok := ins.(*ssa.Phi)
+		if !ok {
+			break
+		}
+		for i, p := range h.Preds {
+			if p == b {
+				phiVals[phi] = fr.val(phi.Edges[i])
+			}
+		}
+	}
+	sfx := ""
+	if fr.inline {
+		sfx = "@inl:" + fr.fn.Name()
+	}
+	for k, cl := range li.invs {
+		tr := fr.loopTrans(li, st, phiVals)
+		f := vc.trClause(tr, cl)
+		vc.addObl(&obligation{Name: fmt.Sprintf("inv/loop%d.%d/preserve@b%d%s", li.ordinal, k+1, fr.backOrdinal(li, b), sfx), Kind: "inv-preserve", Goal: and(ec, not(f)),
+			Pos: fmt.Sprintf("%s:%d", relPath(cl.File), cl.Line), Clause: cl.Src, Inputs: vc.inputTerms()})
+	}
+	for _, cl := range li.decs {
+		tr := fr.loopTrans(li, st, phiVals)
+		var now []string
+		for _, e := range cl.Exprs {
+			s, _ := tr.expr(e)
+			now = append(now, s)
+		}
+		vc.addObl(&obligation{Name: fmt.Sprintf("variant/loop%d@b%d%s", li.ordinal, fr.backOrdinal(li, b), sfx), Kind: "variant", Goal: and(ec, not(lexLess(now, li.decAt))),
+			Pos: fmt.Sprintf("%s:%d", relPath(cl.File), cl.Line), Clause: "decreases " + cl.Src, Props: vc.termProps(), Inputs: vc.inputTerms()})
+	}
+	if len(li.decs) == 0 && vc.safety && !li.selfTerminating() {
+		vc.addObl(&obligation{Name: fmt.Sprintf("variant/loop%d@b%d%s", li.ordinal, fr.backOrdinal(li, b), sfx), Kind: "variant", Goal: ec, Clause: "loop without a decreases clause", Props: vc.termProps()})
+	}
+}
+
+// backOrdinal numbers the back edges of a loop in block order (stable under unrelated edits).
+func (fr *frame) backOrdinal(li *loopInfo, b *ssa.BasicBlock) int {
+	n := 0
+	for _, p := range li.header.Preds {
+		if li.body[p] && li.header.Dominates(p) {
+			n++
+			if p == b {
+				return n
+			}
+		}
+	}
+	return n
+}
+
+// selfTerminating: range loops over slices (hidden index) and maps terminate by construction.
+func (li *loopInfo) selfTerminating() bool {
+	for _, ins := range li.header.Instrs {
+		if phi, ok := ins.(*ssa.Phi); ok && phi.Comment == "rangeindex" {
+			return true
+		}
+		if _, ok := ins.(*ssa.Next); ok {
+			return true
+		}
+	}
+	return false
 }
 
 func (fr *frame) enterLoop(li *loopInfo, h *ssa.BasicBlock, pre *state, enter string, preds []*ssa.BasicBlock, conds []string) *state {
@@ -948,47 +1022,37 @@ func (vc *funcVC) havoc(st, pre *state, ms *modset, why string) {
 	for k := range ms.real {
 		keys[k] = true
 	}
-	for k := range ms.fresh {
-		keys[k] = true
-	}
-	if len(keys) == 0 && len(ms.unknown) == 0 {
+	if len(keys) == 0 && len(ms.fresh) == 0 && len(ms.unknown) == 0 {
 		return
 	}
+	// allocation does not change the heap arrays: cells of fresh objects are simply not known before;
+	// only keys with writes to (possibly) pre-existing objects get a new version, framed by address shape
 	newA := c.freshConst("A", "Int")
 	c.assume(fmt.Sprintf("(>= %s %s)", newA, pre.alloc))
 	for _, k := range sortedKeys(keys) {
-		if _, ok := c.heapSorts[k]; !ok {
-			// make the sort known (cell keys and map keys are created through their constructors)
-			if s, ok2 := vc.ma.c.heapSorts[k]; ok2 {
-				c.ensureSortDecls(vc.ma.c, s)
-				c.heapSorts[k] = s
-			} else {
-				continue
-			}
+		if !vc.ensureKey(k) {
+			continue
 		}
 		old := c.heapGet(pre, k)
 		n := c.freshConst(k, c.heapSorts[k])
 		st.heap[k] = n
 		sh := ms.real[k]
-		if sh != nil && sh.any {
+		if sh.any {
 			continue
 		}
 		var guard []string
-		guard = append(guard, fmt.Sprintf("(< (born fa!x) %s)", pre.alloc))
-		if sh != nil {
-			var hit []string
-			for _, f := range sortedInts(sh.fids) {
-				hit = append(hit, fmt.Sprintf("(= (fid fa!x) %d)", f))
-			}
-			if len(hit) > 0 {
-				guard = append(guard, not(and("(is_fld fa!x)", or(hit...))))
-			}
-			if sh.elem {
-				guard = append(guard, "(not (is_elem fa!x))")
-			}
-			if sh.obj {
-				guard = append(guard, "(not (is_obj fa!x))")
-			}
+		var hit []string
+		for _, f := range sortedInts(sh.fids) {
+			hit = append(hit, fmt.Sprintf("(= (fid fa!x) %d)", f))
+		}
+		if len(hit) > 0 {
+			guard = append(guard, not(and("(is_fld fa!x)", or(hit...))))
+		}
+		if sh.elem {
+			guard = append(guard, "(not (is_elem fa!x))")
+		}
+		if sh.obj {
+			guard = append(guard, "(not (is_obj fa!x))")
 		}
 		c.assume(fmt.Sprintf("(forall ((fa!x Ref)) (! (=> %s (= (select %s fa!x) (select %s fa!x))) :pattern ((select %s fa!x))))", and(guard...), n, old, n))
 	}
@@ -1007,15 +1071,20 @@ func sortedInts(m map[int]bool) []int {
 	return out
 }
 
-// ensureSortDecls copies struct sort declarations needed by sort s from another context.
-func (c *smtctx) ensureSortDecls(from *smtctx, s string) {
-	for _, d := range from.sortDecls {
-		// "(declare-datatypes ((NAME 0)) ..."
-		name := strings.TrimPrefix(d, "(declare-datatypes ((")
-		name = name[:strings.Index(name, " ")]
-		if strings.Contains(s, name) && !c.declaredSorts[name] {
-			c.declaredSorts[name] = true
-			c.sortDecls = append(c.sortDecls, d)
-		}
+// ensureKey makes the sort of a heap key known in this context (keys found by the mod-set analysis).
+func (vc *funcVC) ensureKey(k string) bool {
+	c := vc.c
+	if _, ok := c.heapSorts[k]; ok {
+		return true
 	}
+	if t, ok := vc.ma.keyTypes[k]; ok {
+		if _, isMap := t.Underlying().(*types.Map); isMap && !strings.HasPrefix(k, "H_") {
+			c.mapKeys(t)
+		} else {
+			c.cellKey(t)
+		}
+		_, ok2 := c.heapSorts[k]
+		return ok2
+	}
+	return false
 }
